@@ -9,7 +9,7 @@
    evaluation on every explored case (Harness/C18.v), not by proof. *)
 From Coq Require Import List NArith ZArith Bool String.
 From Cfg Require Import Model.Redis Model.RedisScripts Model.BrokerApi18 Model.RedisBroker Model.MemBroker18
-                        Proofs.C18Stream Proofs.C18StreamT Proofs.C18Witness.
+                        Proofs.C18Stream Proofs.C18StreamT Proofs.C18List Proofs.C18Witness.
 Import ListNotations.
 Open Scope string_scope.
 
@@ -26,14 +26,30 @@ Open Scope string_scope.
                 history on; nonces (epochs) without ':' and '_'; payloads < 2^31-1 bytes;
                 stream top stays < 10^14; reverse iteration "since" a position only from
                 1 <= offset <= top+1.
-   "_partial": time (TTL expiry, OpTick) is excluded from this theorem; list storage is
-   covered by C18_agree_list_partial when present. *)
+   "_partial": time (TTL expiry, OpTick) is excluded from these theorems (both models have
+   a virtual clock; agreement under ticks is only exemplified, disagreements under ticks are
+   witnessed below). *)
 Theorem C18_agree_stream_partial :
   forall cfg ops,
     cfg_ok cfg = true -> keys_okb (chans ops) (idems ops) = true -> run_ok cfg minit ops = true ->
     redis_run cfg ops = mem_run cfg ops.
 Proof. exact agree_stream. Qed.
 Print Assumptions C18_agree_stream_partial.
+
+(* LIST storage (UseLists).  Same statement; the domain (run_okL) additionally requires
+   what the list scripts do not implement to be unused: Version = 0, UseDelta = false,
+   Reverse = false, and since.Offset + 1 < 2^64. *)
+Theorem C18_agree_list_partial :
+  forall cfg ops,
+    cfg_okL cfg = true -> keys_okbL (chans ops) (idems ops) = true -> run_okL cfg minit ops = true ->
+    redis_run cfg ops = mem_run cfg ops.
+Proof. exact agree_list. Qed.
+Print Assumptions C18_agree_list_partial.
+
+Example C18_list_domain_inhabited :
+  cfg_okL cfgL = true /\ keys_okbL (chans w_agree_list) (idems w_agree_list) = true /\
+  run_okL cfgL minit w_agree_list = true /\ List.length w_agree_list = 14%nat.
+Proof. vm_compute. repeat split. Qed.
 
 (* Non-vacuity: a sequence with publishes (delta, idempotent, versioned, suppressed),
    history calls in both directions, remove, satisfies the hypotheses. *)
